@@ -32,18 +32,22 @@ fn run_c19(tier: &str) -> i32 {
     for rt in [RtKind::Tokio, RtKind::Smol] {
         let plans: Vec<(String, Spec, u32)> = if tier == "thorough" {
             vec![
-                (format!("{rt:?}/1-dir/<=3msgs/16slots/dev2"), Spec { rt, sizes: vec![1, 300, 6000, 70000], max_msgs: 3, slots: 16, bidir: false, cancels: true, small_buffers: true }, 2),
-                (format!("{rt:?}/1-dir/<=2msgs/10slots/dev3"), Spec { rt, sizes: vec![300, 6000, 70000], max_msgs: 2, slots: 10, bidir: false, cancels: true, small_buffers: true }, 3),
-                (format!("{rt:?}/2-dir/<=2msgs/12slots/dev2"), Spec { rt, sizes: vec![300, 70000], max_msgs: 2, slots: 12, bidir: true, cancels: true, small_buffers: true }, 2),
-                (format!("{rt:?}/1MiB/default-buffers/12slots/dev1"), Spec { rt, sizes: vec![1 << 20], max_msgs: 2, slots: 12, bidir: false, cancels: true, small_buffers: false }, 1),
+                (format!("{rt:?}/1-dir/<=3msgs/16slots/dev2"), Spec { rt, sizes: vec![1, 300, 6000, 70000], max_msgs: 3, slots: 16, bidir: false, cancels: true, small_buffers: true, abandon_within: 0 }, 2),
+                (format!("{rt:?}/1-dir/<=2msgs/10slots/dev3"), Spec { rt, sizes: vec![300, 6000, 70000], max_msgs: 2, slots: 10, bidir: false, cancels: true, small_buffers: true, abandon_within: 0 }, 3),
+                (format!("{rt:?}/2-dir/<=2msgs/12slots/dev2"), Spec { rt, sizes: vec![300, 70000], max_msgs: 2, slots: 12, bidir: true, cancels: true, small_buffers: true, abandon_within: 0 }, 2),
+                (format!("{rt:?}/1MiB/default-buffers/12slots/dev1"), Spec { rt, sizes: vec![1 << 20], max_msgs: 2, slots: 12, bidir: false, cancels: true, small_buffers: false, abandon_within: 0 }, 1),
             ]
         } else {
             vec![
-                (format!("{rt:?}/1-dir/<=2msgs/10slots/dev2"), Spec { rt, sizes: vec![1, 300, 6000, 70000], max_msgs: 2, slots: 10, bidir: false, cancels: true, small_buffers: true }, 2),
-                (format!("{rt:?}/1-dir/3msgs/8slots/dev1"), Spec { rt, sizes: vec![300, 70000], max_msgs: 3, slots: 8, bidir: false, cancels: true, small_buffers: true }, 1),
-                (format!("{rt:?}/2-dir/<=2msgs/8slots/dev1"), Spec { rt, sizes: vec![300, 70000], max_msgs: 2, slots: 8, bidir: true, cancels: true, small_buffers: true }, 1),
+                (format!("{rt:?}/1-dir/<=2msgs/10slots/dev2"), Spec { rt, sizes: vec![1, 300, 6000, 70000], max_msgs: 2, slots: 10, bidir: false, cancels: true, small_buffers: true, abandon_within: 0 }, 2),
+                (format!("{rt:?}/1-dir/3msgs/8slots/dev1"), Spec { rt, sizes: vec![300, 70000], max_msgs: 3, slots: 8, bidir: false, cancels: true, small_buffers: true, abandon_within: 0 }, 1),
+                (format!("{rt:?}/2-dir/<=2msgs/8slots/dev1"), Spec { rt, sizes: vec![300, 70000], max_msgs: 2, slots: 8, bidir: true, cancels: true, small_buffers: true, abandon_within: 0 }, 1),
             ]
         };
+        let mut plans = plans;
+        // abandon one send after k sender polls, for every k: cancellation points deep inside long sends
+        plans.push((format!("{rt:?}/abandon-after-k-polls/small-buffers"), Spec { rt, sizes: vec![300, 70000], max_msgs: 3, slots: 0, bidir: false, cancels: false, small_buffers: true, abandon_within: if tier == "thorough" { 40 } else { 24 } }, 0));
+        plans.push((format!("{rt:?}/abandon-after-k-polls/default-buffers"), Spec { rt, sizes: vec![300, 400_000], max_msgs: 3, slots: 0, bidir: false, cancels: false, small_buffers: false, abandon_within: 6 }, 0));
         for (name, spec, budget) in plans {
             let cfg = Config { budget, ..cfg_base.clone() };
             let h = Sched(spec);
